@@ -921,7 +921,8 @@ def methods_rule(repo, res):
     bp, op = fn.params[1], fn.params[2]
     calls = [c for c in ast.walk(fn.node) if isinstance(c, ast.Call) and isinstance(c.func, ast.Attribute) and c.func.attr == "dot"]
     STRIPPED_SELF = ("self.view(np.ndarray)", "np.asarray(self)", "self.d", "self.ndview")
-    ok = len(calls) == 1 and norm(calls[0].func.value) in STRIPPED_SELF and [norm(a) for a in calls[0].args] in ([f"np.asarray({bp})"], [f"np.asanyarray({bp}).view(np.ndarray)"])
+    # ndarray.dot(b, out=None): the second operand is the first positional argument, out the second or a keyword
+    ok = len(calls) == 1 and norm(calls[0].func.value) in STRIPPED_SELF and 1 <= len(calls[0].args) <= 2 and norm(calls[0].args[0]) in (f"np.asarray({bp})", f"np.asanyarray({bp}).view(np.ndarray)") and all(k.arg == "out" for k in calls[0].keywords) and not (len(calls[0].args) == 2 and calls[0].keywords)
     res.check(ok, "dot", fn.where(), "dot must run ndarray.dot on the bare view of self with the stripped second operand, in that order", f"self.view(np.ndarray).dot(np.asarray({bp}), out=...)", [norm(c) for c in calls], rid=r5)
     # the out= buffer NumPy writes into (and returns) is a *plain view* of the caller's out: handing over a unyt
     # out makes NumPy return that object - with whatever unit it had - as the product, which is then multiplied by
